@@ -306,7 +306,9 @@ class Printer:
             elif s[0] == 'disj':
                 parts = []
                 for b in s[1]:
-                    parts.append("{\n" + "\n".join(self.stmts(b, ind + "  ")) + "\n" + ind + "}")
+                    cost = [t[1] for t in b if t[0] == 'cost']
+                    parts.append("{\n" + "\n".join(self.stmts([t for t in b if t[0] != 'cost'], ind + "  ")) + "\n" + ind + "}" +
+                                 (" [%s]" % num(cost[0], False) if cost else ""))
                 out.append(ind + " or ".join(parts))
         return out
 
@@ -326,7 +328,7 @@ def to_riddle(p, style_of=None):
 def to_sexp(p):
     decls = all_decls(p)
     bidx = {n: i for i, n in enumerate([n for t, n in decls if t == 'bool'])}
-    xidx = {n: i for i, n in enumerate([n for t, n in decls if t in ('real', 'int')])}
+    xidx = {n: i for i, n in enumerate([n for t, n in decls if t in ('real', 'int', 'tp')])}
     # an enum variable e over n values is encoded for the reference procedure by n booleans  e#k  (e has value k),
     # exactly one of which holds; e1 == e2 is the conjunction of  e1#k == e2#k
     enums = p.get('enums', {})
@@ -737,18 +739,161 @@ class Gen:
         self.trim(p)
         return p, 'random'
 
+    # ---- (2b) a branch that tightens ONE bound several times (weaker first) fails and is backtracked; the surviving
+    #      branch needs a value beyond the intermediate bounds (undo records of lra_theory::assert_lower / assert_upper) ----
+    def retighten(self):
+        r = self.rng
+        nx = r.randint(1, 3)
+        xs = ["x%d" % i for i in range(nx)]
+        decls = [('real', x) for x in xs]
+        M = {x: Fr(r.randint(-6, 6)) for x in xs}
+
+        def atom(op, terms, k):
+            return ('c', ('cmp', op, ({a: Fr(c) for a, c in terms.items()}, Fr(k))))
+
+        def failing_branch():
+            x = r.choice(xs)
+            upper = r.random() < 0.5
+            sgn = 1 if upper else -1                    # upper: x <= c ...; lower: x >= c ...
+            v = M[x]
+            n = r.randint(2, 4)
+            # bounds strictly on the wrong side of v, weaker first:  v - 1 > c1 > c2 > ...   (upper)
+            cs = []
+            c = v - sgn * Fr(r.randint(1, 2))
+            for _ in range(n):
+                cs.append(c)
+                c = c - sgn * Fr(r.choice([1, 1, 2, Fr(1, 2)]))
+            if r.random() < 0.25:
+                r.shuffle(cs)                           # not always monotone
+            body = []
+            via = r.choice(xs + [None, None]) if nx > 1 else None
+            if via is not None and via != x and r.random() < 0.6:
+                # through another variable:  x <= y; y <= c1; y <= c2
+                body.append(atom('le' if upper else 'ge', {x: 1, via: -1}, 0))
+                tgt = via
+            else:
+                tgt = x
+            for c in cs:
+                op = r.choice(['le', 'le', 'lt']) if upper else r.choice(['ge', 'ge', 'gt'])
+                body.append(atom(op, {tgt: 1}, -c))
+            # the contradiction: x beyond the tightest bound, still on the wrong side of v (or not)
+            tight = min(cs) if upper else max(cs)
+            d = tight + sgn * Fr(r.choice([Fr(1, 2), 1, 0]))
+            op = ('ge' if upper else 'le') if d != tight else ('gt' if upper else 'lt')
+            body.append(atom(op, {x: 1}, -d))
+            if r.random() < 0.3:
+                r.shuffle(body)
+            body.append(('cost', Fr(r.choice([1, 1, 2]))))
+            return body
+
+        def surviving_branch():
+            body = []
+            for x in r.sample(xs, r.randint(1, nx)):
+                k = r.choice(['ge', 'le', 'eq'])
+                body.append(atom(k, {x: 1}, -M[x]))
+            body.append(('cost', Fr(r.choice([2, 3, 5]))))
+            return body
+
+        def disj(depth):
+            bodies = [failing_branch() for _ in range(r.randint(1, 2))]
+            if depth > 0 and r.random() < 0.35:
+                bodies.append([disj(depth - 1), ('cost', Fr(1))])       # a nested disjunction that can survive
+            else:
+                bodies.append(surviving_branch())
+            if r.random() < 0.3:
+                r.shuffle(bodies)
+            return ('disj', bodies)
+        stmts = [disj(1) for _ in range(r.randint(1, 2))]
+        for _ in range(r.randint(0, 2)):
+            stmts.append(('c', self.tight_cmp(xs, M, True)))
+        r.shuffle(stmts)
+        p = {'decls': decls, 'stmts': stmts, 'enums': {}}
+        assert ev_problem(p, M)
+        return p, M
+
+    # ---- (2c) difference logic through `tp` variables: a negative cycle split over two disjunctions, edges asserted in
+    #      every order (appending and PREPENDING to existing chains), strict and non-strict; the failing combination is
+    #      cheaper than the surviving one (explanations of idl / rdl_theory: predecessors of composed paths) ----
+    def tpcycle(self):
+        r = self.rng
+        n = r.randint(3, 5)
+        ts = ["t%d" % i for i in range(n)]
+        decls = [('tp', t) for t in ts]
+        M = {t: Fr(r.randint(0, 12)) for t in ts}
+
+        def edge(a, b, w, strict):
+            # b - a <= w   (edge a -> b of weight w)
+            return ('c', ('cmp', 'lt' if strict else 'le', ({b: Fr(1), a: Fr(-1)}, Fr(-w))))
+
+        L = r.randint(3, n)
+        cyc = r.sample(ts, L)
+        # weights of a cycle that cannot hold: total < 0, or total = 0 with a strict edge (total = 0, no strict edge: it can)
+        ws = [Fr(r.randint(-3, 3)) for _ in range(L)]
+        kind = r.choice(['neg', 'neg', 'zero-strict', 'zero-ok'])
+        target = {'neg': Fr(-r.randint(1, 3)), 'zero-strict': Fr(0), 'zero-ok': Fr(0)}[kind]
+        ws[-1] += target - sum(ws)
+        stricts = [r.random() < 0.25 for _ in range(L)]
+        if kind == 'zero-strict':
+            stricts[r.randrange(L)] = True
+        if kind == 'zero-ok':
+            stricts = [False] * L
+        edges = [edge(cyc[i], cyc[(i + 1) % L], ws[i], stricts[i]) for i in range(L)]
+        # the planted model satisfies the path e_0 .. e_{L-2} (tightly, most of the time) and not the closing edge e_{L-1}
+        for i in range(L - 1):
+            M[cyc[i + 1]] = M[cyc[i]] + ws[i] - (1 if stricts[i] else 0) - r.choice([0, 0, 0, 1])
+        closing = edges[-1]
+        uncond, first, failing = [], [], [closing]
+        for e in edges[:-1]:
+            c = r.random()
+            (failing if c < 0.55 else uncond if c < 0.8 else first).append(e)
+        # the order in which the failing branch states its edges: every order, i.e. appending AND prepending to the chains
+        # that exist already
+        c = r.random()
+        if c < 0.3:
+            failing.reverse()
+        elif c < 0.8:
+            r.shuffle(failing)
+
+        def planted_edges(k):
+            out = []
+            for _ in range(k):
+                a, b = r.sample(ts, 2)
+                out.append(edge(a, b, M[b] - M[a] + r.choice([0, 0, 1, 2]), False))
+            return out
+        # the surviving branch repeats the edges of the failing one except the closing edge (same constraints, so that a
+        # lemma that is too strong for them shows)
+        surviving = [e for e in failing if e is not closing]
+        if r.random() < 0.3:
+            r.shuffle(surviving)
+        surviving = surviving + planted_edges(r.choice([0, 0, 1])) or planted_edges(1)
+        stmts = list(uncond)
+        if first:
+            stmts.append(('disj', [first + [('cost', Fr(1))], planted_edges(r.randint(1, 2)) + [('cost', Fr(r.choice([3, 5])))]]))
+        second = [failing + [('cost', Fr(1))], surviving + [('cost', Fr(r.choice([3, 5])))]]
+        if r.random() < 0.2:
+            second.reverse()
+        stmts.append(('disj', second))
+        stmts += planted_edges(r.choice([0, 0, 1]))
+        if r.random() < 0.4:
+            r.shuffle(stmts)
+        p = {'decls': decls, 'stmts': stmts, 'enums': {}}
+        return p, (M if ev_problem(p, M) else None)
+
     # ---- (3) equivalence classes ----
-    def variants(self, p, k=3):
+    def variants(self, p, k=3, force=()):
         """semantically equivalent rewritings of p: [(name, problem, style_of)]"""
         r = self.rng
         out = []
-        names = ['reorder', 'rename', 'tautology', 'duplicate', 'imp-as-or', 'sides', 'demorgan']
-        for name in r.sample(names, min(k, len(names))):
+        names = ['reorder', 'rename', 'tautology', 'duplicate', 'imp-as-or', 'sides', 'demorgan', 'reorder-inner']
+        chosen = list(force) + r.sample([n for n in names if n not in force], max(0, min(k - len(force), len(names) - len(force))))
+        for name in chosen:
             q = clone(p)
             style = None
             if name == 'reorder':
                 r.shuffle(q['stmts'])
                 q['decls'] = sorted(q['decls'], key=lambda d: r.random())
+            elif name == 'reorder-inner':
+                q['stmts'] = [shuffle_inner(st, r) for st in q['stmts']]
             elif name == 'rename':
                 ren = {}
                 for t, n in all_decls(q):
@@ -788,6 +933,19 @@ class Gen:
                 style = (lambda f, salt=salt: (zlib.crc32(repr(f).encode()) ^ salt) & 63)
             out.append((name, q, style))
         return out
+
+
+def shuffle_inner(s, r):
+    """the independent statements of every disjunct in another order (declarations stay in front)"""
+    if s[0] != 'disj':
+        return s
+    bodies = []
+    for b in s[1]:
+        head = [t for t in b if t[0] == 'decl']
+        rest = [shuffle_inner(t, r) for t in b if t[0] != 'decl']
+        r.shuffle(rest)
+        bodies.append(head + rest)
+    return ('disj', bodies)
 
 
 def clone(p):
@@ -854,5 +1012,7 @@ def rename(p, ren):
             return ('c', rf(s[1]))
         if s[0] == 'decl':
             return ('decl', s[1], ren[s[2]])
+        if s[0] == 'cost':
+            return s
         return ('disj', [[rs(t) for t in b] for b in s[1]])
     return {'decls': [(t, ren[n]) for t, n in p['decls']], 'stmts': [rs(s) for s in p['stmts']], 'enums': dict(p.get('enums', {}))}
